@@ -190,6 +190,9 @@ def run_index(case):
         snap = core.snapshot(a)
         lt = tuple(im.index_object(d) for d in lidx)
         pt = tuple(im.index_object(d) for d in pidx)
+        if nd >= 2 and pidx[0] == pidx[1] and isinstance(pt[0], np.ndarray):
+            pt = (pt[0], pt[0]) + pt[2:]          # one index array object used for two dimensions
+        frozen = [(x, x.copy()) for x in lt + pt if isinstance(x, np.ndarray)]
         lexc = _expected(dims, labels, lidx)
         pexc = _expected(dims, labels, pidx)
         nonfull_l = [i for i, d in enumerate(lidx) if d["k"] != "full"]
@@ -240,6 +243,9 @@ def run_index(case):
         for name, f in P:
             _apply(f, pexc, vals, dims, labels, pidx, "%s pidx=%s" % (name, core.jsonable(pidx)), sig)
         core.expect_unchanged(a, snap, "indexing", sig={"mode": "operand"})
+        for x, x0 in frozen:          # index arrays handed to the library are arguments of a non-in-place operation
+            check(x.dtype == x0.dtype and np.array_equal(x, x0), "index-argument-modified", {"what": "lidx=%s pidx=%s" % (core.jsonable(lidx), core.jsonable(pidx)),
+                                                                                             "before": core.jsonable(x0), "after": core.jsonable(x)}, {"mode": "operand"})
 
     cl = ["by:" + by]
     for labs, d in zip(labels, lidx):
